@@ -7,7 +7,7 @@ from ..engine import VFG, get_tree
 from ..loader import AnalysisError
 from ..model import Model
 from ..report import Result
-from ..terms import T, const, mk
+from ..terms import T, const, mk, uncopy
 from .c13 import W, add_obs_obligation, autoreset_obligations
 from .common import txt
 
@@ -53,7 +53,7 @@ def check(tier: str) -> Result:
         if f is None:
             raise AnalysisError(f"VmapWrapper.{meth} not found")
         ps = [mk("param", f.qual, p) for p in f.params[1:]]
-        r = vfg.apply_func(f, self_t, ci, ps, {}, None, None)
+        r = uncopy(vfg.apply_func(f, self_t, ci, ps, {}, None, None))
         call = mk("call", mk("attr", E, meth), tuple(mk("elem", p) for p in ps), ())
         exp = mk("tuple", (mk("batched", mk("proj", call, 0)), mk("batched", mk("proj", call, 1))))
         res.add("C14.R1", f.loc(), f"wrappers.VmapWrapper.{meth}", f"{meth} == jax.vmap(env.{meth})(args), nothing else", r is exp, txt(r, 6, 300))
@@ -82,8 +82,8 @@ def check(tier: str) -> Result:
             continue
         self_t = mk("self", ci.qual)
         S = mk("param", f.qual, f.params[1])
-        r = vfg.apply_func(f, self_t, ci, [S], {}, None, None)
-        sl = vfg.apply_func(ts, None, None, [S, const(0)], {}, None, None)
+        r = uncopy(vfg.apply_func(f, self_t, ci, [S], {}, None, None))
+        sl = uncopy(vfg.apply_func(ts, None, None, [S, const(0)], {}, None, None))
         exp = mk("call", mk("attr", mk("attr", self_t, "_env"), "render"), (sl,), ())
         res.add("C14.R3", f.loc(), f"wrappers.{c}.render", "render(state) == env.render(tree_slice(state, 0))", r is exp, txt(r, 6, 200))
     res.analysed = {"classes": [W + "VmapWrapper", W + "VmapAutoResetWrapper", W + "AutoResetWrapper"], "vmap_call_sites": n,
